@@ -6,6 +6,10 @@ exit 0 iff every seed is detected. Worktrees are removed as soon as their check 
 import json, os, subprocess, sys, tempfile, shutil
 from concurrent.futures import ThreadPoolExecutor
 V = os.path.dirname(os.path.dirname(os.path.abspath(__file__)))
+# the checks run from a snapshot of /verif taken now, so that work on /verif during a long sweep does not change what is measured
+SNAP = tempfile.mkdtemp(prefix="verif_snap_", dir="/tmp")
+subprocess.run(["rsync", "-a", "--exclude", ".git", "--exclude", ".work", "--exclude", "replays", "--exclude", "seeded", "--exclude", "evidence",
+                V + "/", SNAP + "/"], check=True)
 
 def one(sid):
     d = os.path.join(V, "seeded", sid)
@@ -17,7 +21,7 @@ def one(sid):
         r = subprocess.run(["git", "-C", wt, "apply", os.path.join(d, "patch.diff")], capture_output=True, text=True)
         if r.returncode: return sid, prop, "patch does not apply (tree moved on): " + r.stderr.strip()[:100]
         env = dict(os.environ, VERIF_REPO=wt, VERIF_EVIDENCE_DIR=tempfile.mkdtemp(prefix="ev_", dir="/tmp"))
-        r = subprocess.run([os.path.join(V, "check"), prop, "--tier", "quick"], cwd=V, env=env, capture_output=True, text=True)
+        r = subprocess.run([os.path.join(SNAP, "check"), prop, "--tier", "quick"], cwd=SNAP, env=env, capture_output=True, text=True)
         shutil.rmtree(env["VERIF_EVIDENCE_DIR"], ignore_errors=True)
         first = [l for l in r.stdout.splitlines() if l.startswith(("VIOLATION", "INFRA"))]
         return sid, prop, "exit=%d %s" % (r.returncode, first[0][:90] if first else "")
@@ -39,6 +43,7 @@ def main():
             missed += 0 if ok else 1
             print("%-28s %-4s %s %s" % (sid, prop, "DETECTED" if ok else "MISSED  ", res), flush=True)
     print("seeds=%d missed=%d" % (len(seeds), missed))
+    shutil.rmtree(SNAP, ignore_errors=True)
     return 1 if missed else 0
 
 sys.exit(main())
